@@ -28,7 +28,7 @@ def reasm(prop,extra_quick=(),extra_thorough=()):
     for sc in range(4):
         jobs.append(job(f"script-{sc}",".","VH_Reassembler",[prop+"/"],{"k":0,"maxInFlight":4,"script":sc},Q,bounds=f"fixed history #{sc} of 14-24 pushes: events that collect 10-20 records each, interleaved with their neighbours, EOEs, then Close; maxInFlight=4; symbolic sequence base"))
     if prop=="C10": jobs.append(job("many-open-300",".","VH_Reassembler",[prop+"/"],{"k":0,"maxInFlight":300,"manyopen":300},Q,loop_cap=200000,max_steps=300000000,bounds="300 events open at once (distinct sequences from one of three concrete bases incl. one straddling the roll-over, every third pair out of order, no record completes) under maxInFlight=300, then Close: nothing leaves before Close"))
-    if prop=="C10": jobs.append(job("many-open-1100",".","VH_Reassembler",[prop+"/"],{"k":0,"maxInFlight":1100,"manyopen":1100},T,loop_cap=2000000,max_steps=4000000000,bounds="the same with 1100 events under maxInFlight=1100"))
+    if prop=="C10": jobs.append(job("many-open-600",".","VH_Reassembler",[prop+"/"],{"k":0,"maxInFlight":600,"manyopen":600},T,loop_cap=2000000,max_steps=2000000000,bounds="the same with 600 events under maxInFlight=600"))
     jobs.append(job("alphabet-k4-mif5",".","VH_Reassembler",[prop+"/"],{"k":4,"maxInFlight":5,"alphabet":3},Q,bounds="k=4 operations over sequence = base + {0,1,2} x 3 record kinds; maxInFlight=5 (three events buffered at once)"))
     jobs.append(job("alphabet-k4-mif2",".","VH_Reassembler",[prop+"/"],{"k":4,"maxInFlight":2,"alphabet":3},Q,bounds="k=4 operations over sequence = base + {0,1,2} x 3 record kinds; maxInFlight=2"))
     jobs.append(job("alphabet-k6-mif2",".","VH_Reassembler",[prop+"/"],{"k":6,"maxInFlight":2,"alphabet":2},T,bounds="k=6 over base + {0,1} x 3 record kinds; maxInFlight=2"))
